@@ -584,6 +584,16 @@ class StdioClient:
             logger.debug(f"Error during stdio client shutdown: {e}")
 
         finally:
+            # Nothing will be routed any more: end the per-request streams that
+            # are still waiting, so that their receivers see the end of the stream
+            # instead of blocking for ever
+            for pending_stream in list(self._pending.values()):
+                try:
+                    pending_stream.close()
+                except Exception:
+                    pass
+            self._pending.clear()
+
             # Always terminate and reap the child - also when a cancellation is
             # propagating (joining the task group re-raises it). The sequence is
             # bounded by the two grace periods, so it is shielded from the
